@@ -9,20 +9,60 @@ namespace Tea.Runtime.Life
 
 /-! ### the ignore-signals flag -/
 
-/-- THE FLAG, EXACTLY.  In every reachable state signals are ignored iff the terminal is released
-(the loop is inside an Exec, after `exRelCancel` and before `exResReader`), or a release was never
-followed by a restore (`releaseStuck`: the release failed, or the command panicked), or no
-RestoreTerminal has run yet and the program was configured to ignore signals -/
+/-- the option WithoutSignals is fixed by the configuration: no step writes it -/
+theorem inv_withoutSignals {c : Config} {s : St} (hr : Reachable c s) :
+    s.withoutSignals = c.ignoreSignals := by
+  refine reachable_induct (fun s => s.withoutSignals = c.ignoreSignals) rfl ?_ hr
+  intro s s' l _ ih hs
+  step_cases hs l
+  all_goals exact ih
+
+/-- THE FLAG, EXACTLY.  In every reachable state signals are ignored iff the program was configured
+to ignore them (WithoutSignals), or the terminal is released (the loop is inside an Exec, after
+`exRelCancel` and before `exResReader`), or a release was never followed by a restore
+(`releaseStuck`: the release failed, or the command panicked) -/
 theorem inv_sig {c : Config} {s : St} (hr : Reachable c s) :
-    s.ignoreSignals = (s.el.released || s.releaseStuck || (!s.restoredOnce && c.ignoreSignals)) := by
-  refine reachable_induct (fun s => s.ignoreSignals =
-    (s.el.released || s.releaseStuck || (!s.restoredOnce && c.ignoreSignals))) ?_ ?_ hr
-  · simp [init0, ElPc.released]
-  · intro s s' l _ ih hs
-    step_cases hs l
-    all_goals first
-      | exact ih
-      | (simp_all [ElPc.released]; done)
+    s.ignoreSignals = (c.ignoreSignals || s.el.released || s.releaseStuck) := by
+  have key : s.withoutSignals = c.ignoreSignals ∧
+      s.ignoreSignals = (c.ignoreSignals || s.el.released || s.releaseStuck) := by
+    refine reachable_induct (fun s => s.withoutSignals = c.ignoreSignals ∧
+      s.ignoreSignals = (c.ignoreSignals || s.el.released || s.releaseStuck)) ?_ ?_ hr
+    · simp [init0, ElPc.released]
+    · intro s s' l _ ih hs
+      step_cases hs l
+      all_goals first
+        | exact ih
+        | (simp_all [ElPc.released]; done)
+  exact key.2
+
+/-! ### the record of the repaired defect: RestoreTerminal before the repair -/
+
+/-- the step function BEFORE the repair of RestoreTerminal: `exResReader` and `execRestoreFails`
+cleared `ignoreSignals` unconditionally (`atomic.StoreUint32(&p.ignoreSignals, 0)`), whatever the
+program was configured with; every other step is the step of the model -/
+def stepOld (s : St) (l : Label) : Option St :=
+  match l with
+  | .exResReader | .execRestoreFails => (step s l).map (fun s' => { s' with ignoreSignals := false })
+  | _ => step s l
+
+def runLabelsOld (s : St) : List Label → Option St
+  | [] => some s
+  | l :: ls => match stepOld s l with
+    | some s' => runLabelsOld s' ls
+    | none => none
+
+/-- for a program that was not configured to ignore signals the repair changes nothing: the old
+step is the step -/
+theorem stepOld_eq_step {s : St} (h : s.withoutSignals = false) (l : Label) : stepOld s l = step s l := by
+  cases l <;> try rfl
+  · -- execRestoreFails
+    simp only [stepOld, step]
+    split <;> simp [h]
+  · -- exResReader
+    simp only [stepOld, step]
+    split
+    · split <;> simp [h]
+    · rfl
 
 theorem noexec_set {ss : List Caller} {i : Nat} {c x : Caller}
     (h1 : ∀ cl ∈ ss, cl.kind ≠ .exec) (hi : ss[i]? = some c) (hx : x.kind = c.kind) :
@@ -45,52 +85,67 @@ theorem releaseStuck_origin {s s' : St} {l : Label} (hs : step s l = some s')
     | (simp; done)
     | (cases h; done)
 
-/-- RestoreTerminal's first step: signals are obeyed again -/
+/-- RestoreTerminal's first step puts the flag back to what the program was configured with -/
 theorem exResReader_signals {s s' : St} (hs : step s .exResReader = some s') :
-    s'.ignoreSignals = false ∧ s'.sig = s.sig ∧ s'.restoredOnce = true ∧ s'.releaseStuck = false := by
+    s'.ignoreSignals = s.withoutSignals ∧ s'.sig = s.sig ∧ s'.releaseStuck = false := by
   simp only [step] at hs
   split at hs
-  · split at hs <;> (cases hs; exact ⟨rfl, rfl, rfl, rfl⟩)
+  · split at hs <;> (cases hs; exact ⟨rfl, rfl, rfl⟩)
   · cases hs
 
 /-- a program without an Exec message never enters an Exec: the flag keeps its configured value -/
 theorem inv_noexec {c : Config} (hc : SendKind.exec ∉ c.senders) {s : St} (hr : Reachable c s) :
-    (∀ cl ∈ s.senders, cl.kind ≠ .exec) ∧ s.el.inExec = false ∧ s.restoredOnce = false ∧
-    s.releaseStuck = false := by
+    (∀ cl ∈ s.senders, cl.kind ≠ .exec) ∧ s.el.inExec = false ∧ s.releaseStuck = false := by
   refine reachable_induct (fun s => (∀ cl ∈ s.senders, cl.kind ≠ .exec) ∧ s.el.inExec = false ∧
-    s.restoredOnce = false ∧ s.releaseStuck = false) ?_ ?_ hr
-  · refine ⟨?_, rfl, rfl, rfl⟩
+    s.releaseStuck = false) ?_ ?_ hr
+  · refine ⟨?_, rfl, rfl⟩
     intro cl hcl hk
     simp only [init0, List.mem_map] at hcl
     obtain ⟨k, hk1, hk2⟩ := hcl
     subst hk2
     exact hc (hk ▸ hk1)
   · intro s s' l _ ih hs
-    obtain ⟨h1, h2, h3, h4⟩ := ih
+    obtain ⟨h1, h2, h4⟩ := ih
     step_cases hs l
     all_goals first
-      | exact ⟨h1, h2, h3, h4⟩
+      | exact ⟨h1, h2, h4⟩
       | (simp_all [ElPc.inExec]; done)
-      | exact ⟨noexec_set h1 (by assumption) (by rfl), h2, h3, h4⟩
-      | exact ⟨noexec_set h1 (by assumption) (by rfl), rfl, h3, h4⟩
+      | exact ⟨noexec_set h1 (by assumption) (by rfl), h2, h4⟩
+      | exact ⟨noexec_set h1 (by assumption) (by rfl), rfl, h4⟩
       | (exfalso; exact h1 _ (List.mem_of_getElem? (by assumption)) (by assumption))
 
-/-- until the first RestoreTerminal, in a program configured to ignore signals, the handler goroutine
-never holds a signal to forward -/
+/-- in a program configured to ignore signals the handler goroutine never holds a signal to forward -
+before, during and after any number of Execs -/
 theorem inv_ignored_not_sending {c : Config} (hc : c.ignoreSignals = true) {s : St}
-    (hr : Reachable c s) (hno : s.restoredOnce = false) : ∀ b, s.sig ≠ .sending b := by
-  have key : ∀ {s : St}, Reachable c s → (s.restoredOnce = false → ∀ b, s.sig ≠ .sending b) := by
-    intro s hr
-    refine reachable_induct (fun s => s.restoredOnce = false → ∀ b, s.sig ≠ .sending b) ?_ ?_ hr
-    · intro _ b; simp [init0]
-    · intro s s' l hrs ih hs
-      have hig := inv_sig hrs
-      step_cases hs l
-      all_goals first
-        | exact ih
-        | (simp_all; done)
-        | (intro h b; split <;> simp_all)
-  exact key hr hno
+    (hr : Reachable c s) : ∀ b, s.sig ≠ .sending b := by
+  refine reachable_induct (fun s => ∀ b, s.sig ≠ .sending b) ?_ ?_ hr
+  · intro b; simp [init0]
+  · intro s s' l hrs ih hs
+    have hig : s.ignoreSignals = true := by rw [inv_sig hrs, hc]; rfl
+    step_cases hs l
+    all_goals first
+      | exact ih
+      | (simp_all; done)
+      | (intro b; split <;> simp_all)
+
+/-- labels that are disabled in every reachable state occur in no run from a reachable state -/
+theorem run_avoids {c : Config} (P : Label → Prop)
+    (h : ∀ s, Reachable c s → ∀ l, P l → step s l = none) :
+    ∀ (ls : List Label) {s s' : St}, Reachable c s → runLabels s ls = some s' → ∀ l ∈ ls, ¬ P l := by
+  intro ls
+  induction ls with
+  | nil => intro s s' _ _ l hl; cases hl
+  | cons a ls ih =>
+    intro s s' hr hrun l hl hp
+    simp only [runLabels] at hrun
+    split at hrun
+    · rename_i s1 h1
+      rcases List.mem_cons.1 hl with e | e
+      · subst e
+        rw [h s hr l hp] at h1
+        cases h1
+      · exact ih (Reachable.step a hr h1) hrun l e hp
+    · cases hrun
 
 /-- without an input there is never a read loop -/
 theorem inv_noinput {c : Config} {s : St} (hr : Reachable c s) :
@@ -203,7 +258,7 @@ with the renderer stopped: the state in which Update receives the execMsg -/
 theorem exec_restore_run {s : St} (hel : s.el = .execCmd) (hl : s.listen = .stopped) :
     runLabels s [.execCmdReturns, .exResReader, .exResRenderer, .exResSpawn] =
       some { s with
-        ignoreSignals := false, releaseStuck := false, restoredOnce := true,
+        ignoreSignals := s.withoutSignals, releaseStuck := false,
         leakedReaders := if s.withInput = true then
             (if s.reader = .absent ∨ s.reader = .exited then s.leakedReaders else s.leakedReaders + 1)
           else s.leakedReaders,
@@ -234,7 +289,7 @@ structure AfterExec (s sf : St) (e : Nat) (cl : Caller) : Prop where
   el : sf.el = .callback
   reader : sf.reader = .reading ↔ s.withInput = true
   listen : sf.listen = .idle
-  signals : sf.ignoreSignals = false
+  signals : sf.ignoreSignals = s.withoutSignals ∧ sf.releaseStuck = false ∧ sf.withoutSignals = s.withoutSignals
   modes : sf.modesDirty = true
   senders : sf.senders = s.senders.set e { cl with pc := .returned } ++ execCallers
   restores : sf.restores = s.restores + 1
@@ -268,7 +323,7 @@ theorem exec_roundtrip {c : Config} {s : St} (hr : Reachable c s) (hsel : s.el =
   · refine ⟨rfl, rfl, by simp [step], rfl, rfl, ⟨rfl, fun b => by simp [step]⟩, ?_⟩
     intro h1 h2
     simp [h1, h2]
-  · refine ⟨rfl, ?_, rfl, rfl, rfl, rfl, rfl, ⟨rfl, rfl, rfl, rfl, rfl, rfl⟩⟩
+  · refine ⟨rfl, ?_, rfl, ⟨rfl, rfl, rfl⟩, rfl, rfl, rfl, ⟨rfl, rfl, rfl, rfl, rfl, rfl⟩⟩
     cases hw : s.withInput with
     | true => simp
     | false => simp [inv_noinput hr hw]
@@ -286,7 +341,7 @@ structure ExecReady (s : St) : Prop where
 
 /-- what every Exec re-establishes -/
 structure ExecDone (s : St) : Prop where
-  signals : s.ignoreSignals = false
+  signals : s.ignoreSignals = s.withoutSignals ∧ s.releaseStuck = false
   modes : s.modesDirty = true
   reader : s.reader = .reading ↔ s.withInput = true
 
@@ -299,7 +354,8 @@ theorem exec_round {c : Config} {s : St} (hr : Reachable c s) (hrd : ExecReady s
   have hd : sf.dispAlive = true := by rw [ha.same.2.1, hrd.disp]
   have tail : runLabels sf [.callbackReturns, .elCmdHandOver, .viewReturns] = some { sf with el := .select } := by
     simp [runLabels, step, ha.el, hd]
-  refine ⟨{ sf with el := .select }, ?_, ⟨rfl, ha.listen, hd⟩, ⟨ha.signals, ha.modes, ?_⟩, ha.senders,
+  refine ⟨{ sf with el := .select }, ?_, ⟨rfl, ha.listen, hd⟩,
+    ⟨⟨ha.signals.1.trans ha.signals.2.2.symm, ha.signals.2.1⟩, ha.modes, ?_⟩, ha.senders,
     ha.restores, ha.same.1⟩
   · unfold execRound
     rw [runLabels_append, hrun]
